@@ -16,7 +16,8 @@ PF = Function('ParseFunction', Val, Val, Val, Val)        # _ParseFunction(func,
 wrapS = Function('wrap_string_literal', Val, Val, Val)
 wrapB = Function('wrap_byte_literal', Val, Val, Val)
 
-ARG_KINDS = ['rule-ref', 'local-ref', 'inline-python', 'str', 'byte', 'compound', 'compound-1free', 'compound-2free']
+ARG_KINDS = ['rule-ref', 'local-ref', 'inline-python', 'str', 'str-empty', 'bytes', 'bytes-empty', 'byte', 'compound', 'compound-1free', 'compound-2free']
+STR_ARGS = {'str': 'lit', 'str-empty': '', 'bytes': b'ab\xff', 'bytes-empty': b''}
 
 
 def _ref(name):
@@ -38,8 +39,8 @@ def build_arg(kind):
         return _local('p')
     if kind == 'inline-python':
         return X.PythonExpression('n')
-    if kind == 'str':
-        return X.Str('lit')
+    if kind in STR_ARGS:
+        return X.Str(STR_ARGS[kind])
     if kind == 'byte':
         return X.Byte(0x41)
     if kind == 'compound':
@@ -57,7 +58,7 @@ class CallC(FragContract):
     def configs(self, tier):
         for callee in ('rule', 'local'):
             for ctx in (False, True):
-                for kinds in (['rule-ref'], ['local-ref'], ['inline-python'], ['str'], ['byte'], ['compound'], ['compound-1free'], ['compound-2free'],
+                for kinds in (['rule-ref'], ['local-ref'], ['inline-python'], ['str'], ['str-empty'], ['bytes'], ['bytes-empty'], ['byte'], ['compound'], ['compound-1free'], ['compound-2free'],
                               ['str', 'compound-1free', 'inline-python'], []):
                     for kw in ((False, True) if kinds else (False,)):
                         yield {'callee': callee, 'ctx': ctx, 'args': kinds, 'keyword_last': kw,
@@ -101,8 +102,9 @@ class CallC(FragContract):
             return env['p']
         if kind == 'inline-python':
             return env['n']
-        if kind == 'str':
-            return wrapS(ex.lit('lit'), helper())
+        if kind in STR_ARGS:
+            # every string / bytes literal - the empty ones too - is passed wrapped: its value, callable as its own parser
+            return wrapS(ex.lit(STR_ARGS[kind]), helper())
         if kind == 'byte':
             return wrapB(ex.box(IntVal(0x41)), helper())
         if kind == 'compound':
